@@ -2,7 +2,6 @@ import Refine.Model.Dist
 import Refine.Lemmas.Dist
 import Refine.Lemmas.Comm
 import Refine.Props.C17
-import Refine.Props.C06
 
 /-!
   The world-level unrolling of `syncGlobals` (C06 headline): under the id invariant the loop-by-loop model of
@@ -353,7 +352,7 @@ theorem elimLoop_eq (w : World NodeIds) (h : ElimHyp w) (chunk : Int) : ∀ (fue
     rw [countsOf_length]
     by_cases hlt : a0 < w.length
     · simp only [hlt, if_true]
-      have hp := Refine.Props.C06.active_parts_progress (countsOf w) chunk a0 (by rw [countsOf_length]; exact hlt)
+      have hp := activeParts_progress (countsOf w) chunk a0 (by rw [countsOf_length]; exact hlt)
       rw [countsOf_length] at hp
       rw [sliceStep_eq w h a0 _ hp.1 hp.2]
       exact ih _ hp.2 (by omega)
@@ -584,5 +583,34 @@ theorem syncGlobals_eq : syncGlobals w = w.mapIdx fun r s => finalRank (absWorld
     rfl
 
 end final
+
+/-! ### reading the result through `global[]` -/
+
+theorem writeBack_getD_not_mem (es : List (Int × Nat)) : ∀ (g : List Int) (l : Nat) (d : Int),
+    l ∉ es.map (·.2) → (writeBack g es).getD l d = g.getD l d := by
+  induction es with
+  | nil => intro g l d _; rfl
+  | cons e es ih =>
+    intro g l d hl
+    simp only [List.map_cons, List.mem_cons, not_or] at hl
+    show (writeBack (g.set e.2 e.1) es).getD l d = _
+    rw [ih _ l d hl.2]
+    simp only [List.getD_eq_getElem?_getD, List.getElem?_set]
+    have : e.2 ≠ l := fun h => hl.1 h.symm
+    simp [this]
+
+theorem writeBack_getD (es : List (Int × Nat)) : ∀ (g : List Int) (d : Int), (es.map (·.2)).Nodup →
+    ∀ v l, (v, l) ∈ es → l < g.length → (writeBack g es).getD l d = v := by
+  induction es with
+  | nil => intro g d _ v l hm; simp at hm
+  | cons e es ih =>
+    intro g d hnd v l hm hl
+    rw [List.map_cons, List.nodup_cons] at hnd
+    show (writeBack (g.set e.2 e.1) es).getD l d = v
+    rcases List.mem_cons.mp hm with heq | hm
+    · subst heq
+      rw [writeBack_getD_not_mem es _ _ d hnd.1]
+      simp [List.getD_eq_getElem?_getD, List.getElem?_set, hl]
+    · exact ih _ d hnd.2 v l hm (by simpa using hl)
 
 end Refine.Lemmas.DistSync
